@@ -215,10 +215,10 @@ def k_ops(st):
     jobs = []
     sizes = [(nx, ny) for nx in range(2, nmax + 1) for ny in range(2, nmax + 1)]
     for nx, ny in sizes:
-        for rep in range(ctx.n(1, 3)):
+        for rep in range(ctx.n(2, 4)):
             dx, dy = rnd_step(rng), rnd_step(rng)
             x0, y0 = rnd_origin(rng, dx), rnd_origin(rng, dy)
-            order = 'col' if rep == 0 else rng.choice(['col', 'row', 'shuffle'])
+            order = 'col' if rep == 0 else ('row', 'shuffle', 'col')[(nx + ny + rep) % 3]
             cells = full_cells(nx, ny, 'col' if order == 'shuffle' else order)
             if order == 'shuffle':
                 rng.shuffle(cells)
@@ -282,8 +282,12 @@ def k_ops(st):
             desc['model'] = o[:200]
             desc['implementation'] = status
             ctx.broke('correspondence', 'C20 stream ops/' + kind, desc)
-            # seed the search with the disagreeing case
-            check_ops_case(st, cells, dx, dy, x0, y0, nx, ny, 'K-seed')
+            # seed the search with the disagreeing case (only layouts inside the property: the documented column-major
+            # order, and row-major which the extraction of dx, dy handles as well; never masked/degenerate/shuffled)
+            if kind in ('full-col', 'full-row'):
+                check_ops_case(st, cells, dx, dy, x0, y0, nx, ny, 'K-seed')
+            elif kind == 'full-shuffle':
+                check_ops_case(st, full_cells(nx, ny), dx, dy, x0, y0, nx, ny, 'K-seed')
 
 
 # ---------------------------------------------------------------------------------------------- K: calculate_admt
@@ -511,7 +515,7 @@ def check_admt_case(st, nx, ny, dx, dy, x0, y0, aniso, psi, stream, psi_kind='gi
                     max_abs_diff_from_reference=float(np.abs(L - ref).max()))
         if aniso == 1.0:
             rep2['max_abs_diff_from_laplacian'] = float(np.abs(L - lap).max())
-        sig, why = classify_admt_defect(st, ops, x, psi, dx, dy, aniso, L)
+        sig, why = classify_admt_defect(st, ops, x, psi, dx, dy, aniso, L, float(err.max()), tol)
         ctx.fail(sig, ('calculate_admt(anisotropy=%g) differs from the discretised div(D grad f): row %d relative error %.3g; %s'
                        % (aniso, i, err.max(), why)), rep2)
     elif aniso == 1.0:
@@ -521,7 +525,7 @@ def check_admt_case(st, nx, ny, dx, dy, x0, y0, aniso, psi, stream, psi_kind='gi
             ctx.fail('C20:calculate_admt:isotropic-not-laplacian', 'anisotropy 1 differs from Dxx + Dyy + Dx/R by %g' % e2.max(), rep)
 
 
-def classify_admt_defect(st, ops, x, psi, dx, dy, aniso, L):
+def classify_admt_defect(st, ops, x, psi, dx, dy, aniso, L, err_ref, tol):
     """is the deviation exactly the documented slip (dpsidyy in place of dpsidxdy in dnorm_term_cx)?  Evaluate the
     reference with that single substitution; if it reproduces the implementation the signature is the known one,
     otherwise a different violation is reported under its own signature."""
@@ -536,7 +540,9 @@ def classify_admt_defect(st, ops, x, psi, dx, dy, aniso, L):
     Ls = (cx_slip[:, None] * ops['Dx'] + cy[:, None] * ops['Dy'] + cxx[:, None] * ops['Dxx']
           + 2 * cxy[:, None] * ops['Dxy'] + cyy[:, None] * ops['Dyy']) * math.sqrt(dx * dy)
     scale = np.abs(Ls).max(axis=1)
-    if np.all(np.abs(L - Ls).max(axis=1) <= 1e-8 * scale * max(1.0, ((np.abs(psi).max() / min(dx, dy)) ** 2 / N.min()) ** 2)):
+    err_slip = float((np.abs(L - Ls).max(axis=1) / scale).max())
+    # the slip explains the implementation: agreement to rounding, and orders of magnitude better than with the reference
+    if err_slip <= tol and err_slip <= 1e-4 * err_ref:
         return SIG_DNORM, ('the deviation is reproduced exactly by substituting dpsidyy for dpsidxdy in the x-derivative of '
                            '|grad psi|^2 (admt_utils.py dnorm_term_cx)')
     return 'C20:calculate_admt:coefficients-differ-from-jet:aniso=%s' % ('1' if aniso == 1.0 else 'general'), 'not the dnorm_term_cx slip'
